@@ -320,7 +320,7 @@ func (c *FuncCtx) deref(st *State, v *Val, pos token.Pos) *Val {
 	}
 	isSome := app("(_ is some_"+v.Sort+")", v.S)
 	c.safe(st, "nil", pos, isSome, "nil dereference")
-	r := c.val(app("val_"+v.Sort, v.S), pt.Elem())
+	r := c.val(acc("val_"+v.Sort, v.S), pt.Elem())
 	st.assume(c.eng.typeFacts(r.S, r.T))
 	return r
 }
@@ -348,7 +348,7 @@ func (c *FuncCtx) storeStruct(st *State, ref string, v *Val) {
 		f := stt.Field(i)
 		k := heapKey(name, f.Name())
 		arr := c.heapArr(st, name, f.Name(), f.Type())
-		st.heap[k] = mkStore(arr, ref, c.fieldOf(v, i))
+		st.heap[k] = c.shareTerm(st, mkStore(arr, ref, c.fieldOf(v, i)), fmt.Sprintf("(Array Int %s)", c.eng.sortOf(f.Type())), "H_"+name+"_"+f.Name())
 	}
 }
 
@@ -410,7 +410,7 @@ func (c *FuncCtx) isNilTerm(v *Val) string {
 	case v.Sort == "Iface":
 		return mkEq(app("tag_Iface", v.S), "0")
 	case strings.HasPrefix(v.Sort, "Sl_"), strings.HasPrefix(v.Sort, "Mp_"):
-		return app("nil_"+v.Sort, v.S)
+		return acc("nil_"+v.Sort, v.S)
 	case strings.HasPrefix(v.Sort, "Opt_"):
 		return app("(_ is none_"+v.Sort+")", v.S)
 	}
@@ -610,10 +610,10 @@ func (c *FuncCtx) sliceEq(st *State, a, b *Val) string {
 	s := a.Sort
 	i := c.bvar("i")
 	return mkAnd(
-		mkEq(app("len_"+s, a.S), app("len_"+s, b.S)),
+		mkEq(acc("len_"+s, a.S), acc("len_"+s, b.S)),
 		fmt.Sprintf("(forall ((%s Int)) (=> (and (<= 0 %s) (< %s (len_%s %s))) (= %s %s)))", i, i, i, s, a.S,
-			mkSel(app("base_"+s, a.S), mkAdd(app("off_"+s, a.S), i)),
-			mkSel(app("base_"+s, b.S), mkAdd(app("off_"+s, b.S), i))))
+			mkSel(acc("base_"+s, a.S), mkAdd(acc("off_"+s, a.S), i)),
+			mkSel(acc("base_"+s, b.S), mkAdd(acc("off_"+s, b.S), i))))
 }
 
 var bvarN int
@@ -693,7 +693,7 @@ func (c *FuncCtx) fieldStep(st *State, cur *Val, idx int, pos token.Pos) *Val {
 			c.safe(st, "nil", pos, mkNot(mkEq(cur.S, "0")), "nil dereference ("+structName(el)+"."+f.Name()+")")
 			arr := c.heapArr(st, structName(el), f.Name(), f.Type())
 			r := c.val(mkSel(arr, cur.S), f.Type())
-			st.assume(c.eng.typeFacts(r.S, r.T))
+			c.readFacts(st, r)
 			return r
 		}
 		// pointer to a non-heap struct (immutable pointee) or foreign struct
@@ -711,7 +711,7 @@ func (c *FuncCtx) fieldStep(st *State, cur *Val, idx int, pos token.Pos) *Val {
 		fs := c.eng.sortOf(f.Type())
 		c.eng.declareUF(uf, fmt.Sprintf("(declare-fun %s (Int) %s)", uf, fs))
 		r := c.val(app(uf, cur.S), f.Type())
-		st.assume(c.eng.typeFacts(r.S, r.T))
+		c.readFacts(st, r)
 		return r
 	}
 	stt, ok := under(t).(*types.Struct)
@@ -719,8 +719,8 @@ func (c *FuncCtx) fieldStep(st *State, cur *Val, idx int, pos token.Pos) *Val {
 		limitf("%s: field selection on %s", c.eng.posStr(pos), t)
 	}
 	f := stt.Field(idx)
-	r := c.val(app(cur.Sort+"_"+f.Name(), cur.S), f.Type())
-	st.assume(c.eng.typeFacts(r.S, r.T))
+	r := c.val(acc(cur.Sort+"_"+f.Name(), cur.S), f.Type())
+	c.readFacts(st, r)
 	return r
 }
 
@@ -732,7 +732,27 @@ func (c *FuncCtx) evalIndex(st *State, x *ast.IndexExpr) *Val {
 	return c.indexVal(st, base, idx, x.Pos())
 }
 
+// nameIndex gives a compound index expression a name, so that the element
+// term has the shape (select base (+ off ix)) which quantifier triggers of the
+// form (select base (+ off k)) match (solvers flatten nested sums otherwise).
+func (c *FuncCtx) nameIndex(st *State, idx *Val) *Val {
+	if c.inSpec(st) || !strings.Contains(idx.S, " ") {
+		return idx
+	}
+	if _, ok := isIntLit(idx.S); ok {
+		return idx
+	}
+	n := c.fresh("ix", "Int")
+	st.assume(mkEq(n, idx.S))
+	nv := *idx
+	nv.S = n
+	return &nv
+}
+
 func (c *FuncCtx) indexVal(st *State, base, idx *Val, pos token.Pos) *Val {
+	if _, isMap := under(base.T).(*types.Map); !isMap {
+		idx = c.nameIndex(st, idx)
+	}
 	switch u := under(base.T).(type) {
 	case *types.Basic: // string
 		l := app("str.len", base.S)
@@ -742,16 +762,16 @@ func (c *FuncCtx) indexVal(st *State, base, idx *Val, pos token.Pos) *Val {
 		return r
 	case *types.Slice:
 		s := base.Sort
-		l := app("len_"+s, base.S)
+		l := acc("len_"+s, base.S)
 		c.safe(st, "index", pos, mkAnd(app("<=", "0", idx.S), app("<", idx.S, l)), "slice index in range")
-		r := c.val(mkSel(app("base_"+s, base.S), mkAdd(app("off_"+s, base.S), idx.S)), u.Elem())
-		st.assume(c.eng.typeFacts(r.S, r.T))
+		r := c.val(mkSel(acc("base_"+s, base.S), mkAdd(acc("off_"+s, base.S), idx.S)), u.Elem())
+		c.readFacts(st, r)
 		return r
 	case *types.Map:
 		s := base.Sort
 		k := c.coerce(st, idx, u.Key())
-		r := c.val(mkIte(mkSel(app("dom_"+s, base.S), k.S), mkSel(app("val_"+s, base.S), k.S), c.eng.zero(u.Elem())), u.Elem())
-		st.assume(c.eng.typeFacts(r.S, r.T))
+		r := c.val(mkIte(mkSel(acc("dom_"+s, base.S), k.S), mkSel(acc("val_"+s, base.S), k.S), c.eng.zero(u.Elem())), u.Elem())
+		c.readFacts(st, r)
 		return r
 	case *types.Pointer:
 		limitf("%s: index through pointer", c.eng.posStr(pos))
@@ -792,7 +812,7 @@ func (c *FuncCtx) sliceVal(st *State, base, lo, hi *Val, pos token.Pos) *Val {
 	}
 	if _, ok := under(base.T).(*types.Slice); ok {
 		s := base.Sort
-		l := app("len_"+s, base.S)
+		l := acc("len_"+s, base.S)
 		hiS := l
 		if hi != nil {
 			hiS = hi.S
@@ -801,7 +821,7 @@ func (c *FuncCtx) sliceVal(st *State, base, lo, hi *Val, pos token.Pos) *Val {
 		// hi <= len is required (sufficient for every use in this package).
 		g := mkAnd(app("<=", "0", loS), app("<=", loS, hiS), app("<=", hiS, l))
 		c.safe(st, "slice", pos, g, "slice bounds")
-		return &Val{T: base.T, S: app("mk_"+s, app("base_"+s, base.S), mkAdd(app("off_"+s, base.S), loS), mkSub(hiS, loS), app("nil_"+s, base.S)), Sort: s}
+		return &Val{T: base.T, S: app("mk_"+s, acc("base_"+s, base.S), mkAdd(acc("off_"+s, base.S), loS), mkSub(hiS, loS), acc("nil_"+s, base.S)), Sort: s}
 	}
 	limitf("%s: slice of %s", c.eng.posStr(pos), base.T)
 	return nil
@@ -1007,4 +1027,13 @@ func (c *FuncCtx) alloc(st *State, t types.Type) string {
 	}
 	st.bound["$alloc_"+structName(t)] = &Val{S: r, Sort: "Int"}
 	return r
+}
+
+// readFacts: type-range facts for a value just read from memory. Spec
+// expressions do not need them (and they would bloat quantifier bodies).
+func (c *FuncCtx) readFacts(st *State, r *Val) {
+	if c.inSpec(st) {
+		return
+	}
+	st.assume(c.eng.typeFacts(r.S, r.T))
 }
